@@ -227,6 +227,8 @@ pub fn run(ctx: &Ctx) -> Report {
     run_generated(&mut sec, ctx.seed, n, ctx.workers, || strategy(gen::ConfigMenu::all_transports(), 8), check, sig);
     rep.sections.push(sec);
 
+    super::history_section(&mut rep, ctx, ctx.seed ^ 0x61, ctx.cases(100_000, 2_000_000), || strategy(gen::ConfigMenu::all_transports(), 6), check, sig);
+
     let mut sec = Section::new(
         &format!("giant-fills[{}]", ctx.variant),
         "clear / fill_solid of more than 2^26 pixels on the 65535x65535 external models (4 windows x 8 orientations x plain and single-word colours, full and inner rectangles): the burst's window maps through the controller's addressing onto the geometric image of the visible rectangle and is filled exactly once in the drawn colour (frame memory of such windows is book-kept, not simulated per cell)",
@@ -253,6 +255,8 @@ pub fn replay(section: &str, case: &Value) -> Result<(), String> {
     let mut info = CaseInfo::default();
     if section.starts_with("small-scope") {
         check_small(&de::<SmallCase>(case)?, &mut info)
+    } else if section.starts_with("after-history") {
+        super::replay_history(case, check)
     } else if section.starts_with("giant-fills") {
         check_giant(&de::<ProgCase>(case)?, &mut info)
     } else {
